@@ -213,6 +213,18 @@ Theorem C15_bin_exact_for_linear_spectrum :
 Proof. exact bin_exact_line. Qed.
 Print Assumptions C15_bin_exact_for_linear_spectrum.
 
+(* piecewise-linear spectra, bin by bin: a trapezoid bin whose two edges lie in ONE interval [x0, x1] of the table (the
+   spectrum is linear across that bin) equals the integral of the interpolant over the bin, whatever the other bins do *)
+Theorem C15_bin_exact_when_linear_across_the_bin :
+  forall (s : spectrum) (c : list Qc) (e : endsmode) (b : list Qc) (k : nat)
+         (A : list (Qc * Qc)) (x0 y0 x1 y1 : Qc) (B : list (Qc * Qc)),
+  raw_bins s c Trapz e = Ok b -> wf s -> samples s = A ++ (x0, y0) :: (x1, y1) :: B -> (k < length c)%nat ->
+  let x := bin_edges_trapz e c in
+  x0 <= nth k x 0 -> nth k x 0 <= nth (Datatypes.S k) x 0 -> nth (Datatypes.S k) x 0 <= x1 ->
+  nth k b 0 = pl_integral (samples s) (nth k x 0) (nth (Datatypes.S k) x 0).
+Proof. exact raw_bins_trapz_interval. Qed.
+Print Assumptions C15_bin_exact_when_linear_across_the_bin.
+
 (* non-vacuity: a concrete spectrum with a non-uniform grid; a call sequence mixing accepted calls and a refused
    pad meets the hypotheses of the invariant and ends in the expected state; a concrete integral and bins *)
 Definition spx : spectrum := mkSp [q 1 1; q 3 2; q 5 2; q 9 2; q 5 1] [q 0 1; q 2 1; q 4 1; q 1 1; q 0 1].
